@@ -119,10 +119,17 @@ def check_offline_discrete(ctx, c):
 
 def check_offline_dense(ctx, c):
     text = D.spec_text(c["f"])
+    kw = {}
+    if c.get("units_seed") is not None:
+        # the bounds spelled with explicit units (default unit s): what an evaluation derives from them must not be kept
+        import random
+        from . import c08
+        text = c08.render(random.Random(c["units_seed"]), c["f"], "s", int(D.SCALE * 10 ** 9), [])
+        kw = {"unit": "s"}
     args = [[v, D.py_sig(c["sig"][v])] for v in sorted(c["sig"])]
 
     def go():
-        spec = impl.make_spec("offc", text, sorted(c["sig"]))
+        spec = impl.make_spec("offc", text, sorted(c["sig"]), **kw)
         spec.parse()
         before = copy.deepcopy(args)
         r1 = copy.deepcopy(spec.evaluate(*args))
@@ -130,7 +137,7 @@ def check_offline_dense(ctx, c):
         r2 = spec.evaluate(*args)
         return mutated, r1, r2
     out = impl.guarded(go)
-    rep = {"kind": "offc", "spec": text, "formula": F.to_proto(c["f"]), "signals": D.sig_rep(c["sig"]), "impl": out}
+    rep = {"kind": "offc", "units_seed": c.get("units_seed"), "spec": text, "formula": F.to_proto(c["f"]), "signals": D.sig_rep(c["sig"]), "impl": out}
     if out[0] != "ok":
         return Violation("dense offline evaluate() raised %r: %s" % (out[1:], text), rep, stream="pure/offc")
     mutated, r1, r2 = out[1]
@@ -361,6 +368,8 @@ def explore(ctx, rng, count):
             v = check_offline_discrete(ctx, mk_discrete_offline(rng))
         elif kind == "offc":
             c_ = mk_dense_offline(rng)
+            if rng.random() < 0.35 and any(g[0] in ("tb1", "tb2") for g in F.subformulas(c_["f"])):
+                c_["units_seed"] = rng.randint(0, 10 ** 6)
             v = check_offline_dense(ctx, c_) or check_online_dense(ctx, c_, rng)
         else:
             v = check_interleaving(ctx, rng, [mk_discrete_online(rng) for _ in range(rng.choice([2, 3]))])
@@ -382,7 +391,7 @@ def replay(ctx, obj):
              "units": obj.get("units")}
         v = check_offline_discrete(scratch, c)
     elif obj["kind"] == "offc":
-        v = check_offline_dense(scratch, {"f": F.from_proto(obj["formula"]), "sig": D.sig_of_rep(obj["signals"])})
+        v = check_offline_dense(scratch, {"f": F.from_proto(obj["formula"]), "sig": D.sig_of_rep(obj["signals"]), "units_seed": obj.get("units_seed")})
     elif obj["kind"] == "interleave":
         import random
         cases = [{"f": F.from_proto(f), "n": n, "data": {k: [float(x) for x in v] for k, v in d.items()}, "vars": sorted(d), "per": per}
